@@ -1,6 +1,7 @@
 package eng
 
 import (
+	"go/constant"
 	"go/token"
 	"go/types"
 
@@ -52,6 +53,7 @@ func PathExists(q PathQuery) (ssa.Instruction, bool) {
 		// returned on that path is the nil constant (+1), provably non-nil (-1) or unknown (0)
 		retCall *ssa.Call
 		retErr  int
+		retVals []int8 // per result of the helper: +1 constant nil / true, -1 provably non-nil / constant false, 0 unknown
 	}
 	key := func(stack []*ssa.Call) string {
 		if len(stack) == 0 {
@@ -123,10 +125,35 @@ func PathExists(q PathQuery) (ssa.Instruction, bool) {
 						ne = -1
 					}
 				}
-				rk := rkey{key(rest) + "#" + string(rune('1'+ne)), call}
+				var rv []int8
+				sig := ""
+				for _, res := range in.(*ssa.Return).Results {
+					k := int8(0)
+					x := res
+					if srcs := resolveLocal(x); len(srcs) == 1 {
+						x = srcs[0]
+					}
+					if cst, ok := x.(*ssa.Const); ok {
+						if cst.IsNil() {
+							k = 1
+						} else if cst.Value != nil && cst.Value.Kind() == constant.Bool {
+							if constant.BoolVal(cst.Value) {
+								k = 1
+							} else {
+								k = -1
+							}
+						}
+					} else if isErrorType(x.Type()) && provablyNonNilAt(in.Parent(), x, in) {
+						k = -1
+					}
+					rv = append(rv, k)
+					sig += string(rune('1' + k))
+				}
+				_ = ne
+				rk := rkey{key(rest) + "#" + sig, call}
 				if !returned[rk] {
 					returned[rk] = true
-					work = append(work, state{b: call.Block(), idx: InstrIndex(call) + 1, stack: rest, retCall: call, retErr: ne})
+					work = append(work, state{b: call.Block(), idx: InstrIndex(call) + 1, stack: rest, retCall: call, retErr: ne, retVals: rv})
 				}
 				cut = true
 				break
@@ -155,26 +182,9 @@ func PathExists(q PathQuery) (ssa.Instruction, bool) {
 		sk := key(s.stack)
 		// a helper that returned a nil (non-nil) error cannot take the caller's err != nil (err == nil) branch right after
 		skip := -1
-		if s.retCall != nil && s.retErr != 0 && len(s.b.Succs) == 2 {
+		if s.retCall != nil && len(s.retVals) > 0 && len(s.b.Succs) == 2 {
 			if ifi, ok := s.b.Instrs[len(s.b.Instrs)-1].(*ssa.If); ok {
-				if bo, ok := ifi.Cond.(*ssa.BinOp); ok && (bo.Op == token.NEQ || bo.Op == token.EQL) {
-					var other ssa.Value
-					if IsNilConst(bo.Y) {
-						other = bo.X
-					} else if IsNilConst(bo.X) {
-						other = bo.Y
-					}
-					if other != nil && isErrorType(other.Type()) && DerivesFromCall(other, s.retCall, 0) {
-						errIsNil := s.retErr == 1
-						// Succs[0] is taken when the condition holds
-						condHolds := (bo.Op == token.EQL) == errIsNil
-						if condHolds {
-							skip = 1
-						} else {
-							skip = 0
-						}
-					}
-				}
+				skip = prunedSucc(ifi.Cond, s.retCall, s.retVals)
 			}
 		}
 		for si, succ := range s.b.Succs {
@@ -856,3 +866,67 @@ func blocksT(fn *ssa.Function, v ssa.Value) []*ssa.BasicBlock {
 
 // BlocksT lists the blocks of fn and of the helpers it transparently enters.
 func BlocksT(fn *ssa.Function) []*ssa.BasicBlock { return blocksT(fn, nil) }
+
+// prunedSucc: the helper call `call` just returned with the per-result knowledge vals; if cond tests one of those results
+// (err != nil, err == nil, ok, !ok), the index of the successor that can NOT be taken is returned (-1 otherwise).
+func prunedSucc(cond ssa.Value, call *ssa.Call, vals []int8) int {
+	neg := false
+	for {
+		if u, ok := cond.(*ssa.UnOp); ok && u.Op == token.NOT {
+			neg = !neg
+			cond = u.X
+			continue
+		}
+		break
+	}
+	resIdx := func(v ssa.Value) int {
+		v = unwrap(v)
+		if srcs := resolveLocal(v); len(srcs) == 1 {
+			v = unwrap(srcs[0])
+		}
+		if e, ok := v.(*ssa.Extract); ok && e.Tuple == ssa.Value(call) {
+			return e.Index
+		}
+		if v == ssa.Value(call) {
+			return 0
+		}
+		return -1
+	}
+	holds := 0 // +1 the condition is known true, -1 known false
+	if bo, ok := cond.(*ssa.BinOp); ok && (bo.Op == token.NEQ || bo.Op == token.EQL) {
+		var other ssa.Value
+		if IsNilConst(bo.Y) {
+			other = bo.X
+		} else if IsNilConst(bo.X) {
+			other = bo.Y
+		}
+		if other != nil {
+			if i := resIdx(other); i >= 0 && i < len(vals) && vals[i] != 0 {
+				isNil := vals[i] == 1
+				if (bo.Op == token.EQL) == isNil {
+					holds = 1
+				} else {
+					holds = -1
+				}
+			}
+		}
+	} else if i := resIdx(cond); i >= 0 && i < len(vals) && vals[i] != 0 {
+		if t, ok := cond.Type().Underlying().(*types.Basic); ok && t.Kind() == types.Bool {
+			if vals[i] == 1 {
+				holds = 1
+			} else {
+				holds = -1
+			}
+		}
+	}
+	if holds == 0 {
+		return -1
+	}
+	if neg {
+		holds = -holds
+	}
+	if holds == 1 {
+		return 1 // condition true: the else successor is impossible
+	}
+	return 0
+}
